@@ -77,3 +77,13 @@ pub(crate) static DEC_FIXED8_S0: SchemaNode<'static> = dec_fixed(8, 0);
 pub(crate) static DEC_FIXED16_S0: SchemaNode<'static> = dec_fixed(16, 0);
 pub(crate) static DEC_FIXED17_S0: SchemaNode<'static> = dec_fixed(17, 0);
 pub(crate) static DEC_FIXED2_S1: SchemaNode<'static> = dec_fixed(2, 1);
+
+// --- composite nodes ------------------------------------------------------------------------------
+// Enum / Record / Union nodes are NOT statics: a static with two or more pointer relocations is
+// emitted by Kani as a byte blob whose niche discriminant CBMC does not fold (measured: timeout
+// vs 12 s). They are built as stack locals of the harness by the macros in root.rs
+// (enum_node!, record_node!, union_node!).
+
+pub(crate) fn per_type_lookup_new(variants: &[NodeRef<'static>]) -> PerTypeLookup<'static> {
+	PerTypeLookup::new(variants)
+}
